@@ -99,6 +99,13 @@ NonceIncrementsByOne ==
 InvalidIsNoOp ==
   [][ (IsExec /\ res'.r = "invalid") => UNCHANGED <<st, pend, kv, base>> ]_vars
 
+\* ... also when its execution fails inside the EVM (reverting call, failing contract creation): such a tx is applied
+\* (receipt with failed status), so its nonce must be consumed - otherwise the same signed bytes are accepted again
+FailedExecutionConsumesNonce ==
+  [][ (IsExec /\ res'.r = "valid" /\ res'.t.c \in {"createfail", "revert", "oog", "admshort"})
+        => /\ st'.nonce[res'.t.a] = st.nonce[res'.t.a] + 1
+           /\ Result(st', res'.t) = "invalid" ]_vars
+
 \* a signed transaction takes effect at most once over the whole chain
 AtMostOnce == ~twice
 
